@@ -18,6 +18,10 @@ use std::path::Path;
 pub struct BreakpointRecord {
     pub id: i64,
     pub addresses: Vec<debugger::address::Address>,
+    /// Numbers of the debugger breakpoints created for this record. Unlike an address, which is
+    /// `Global` before the debuggee starts and `Relocated` afterwards, a number identifies the
+    /// breakpoint for its whole life.
+    pub numbers: Vec<u32>,
     pub condition: Option<String>,
     pub hit_condition: Option<HitCondition>,
     pub log_message: Option<String>,
@@ -228,8 +232,8 @@ impl DebugSession {
                 .ok_or_else(|| anyhow!("setBreakpoints: debugger not initialized"))?;
 
             for record in prev {
-                for addr in record.addresses {
-                    let _ = dbg.remove_breakpoint(addr);
+                for number in record.numbers {
+                    let _ = dbg.remove_breakpoint_by_number(number);
                 }
                 pending_events.push(InternalEvent::Breakpoint {
                     reason: "removed",
@@ -256,8 +260,7 @@ impl DebugSession {
                 };
 
                 match views {
-                    Ok(mut v) if !v.is_empty() => {
-                        let first = v.remove(0);
+                    Ok(v) if !v.is_empty() => {
                         let id = alloc_id();
                         let dap_bp = json!({
                             "id": id,
@@ -267,7 +270,8 @@ impl DebugSession {
                         });
                         new_breakpoints.push(BreakpointRecord {
                             id,
-                            addresses: vec![first.addr],
+                            addresses: v.iter().map(|view| view.addr).collect(),
+                            numbers: v.iter().map(|view| view.number).collect(),
                             condition: options.condition,
                             hit_condition: options.hit_condition,
                             log_message: options.log_message,
@@ -290,6 +294,7 @@ impl DebugSession {
                         new_breakpoints.push(BreakpointRecord {
                             id,
                             addresses: Vec::new(),
+                            numbers: Vec::new(),
                             condition: options.condition,
                             hit_condition: options.hit_condition,
                             log_message: options.log_message,
@@ -352,8 +357,8 @@ impl DebugSession {
                 .ok_or_else(|| anyhow!("setFunctionBreakpoints: debugger not initialized"))?;
 
             for record in prev {
-                for addr in record.addresses {
-                    let _ = dbg.remove_breakpoint(addr);
+                for number in record.numbers {
+                    let _ = dbg.remove_breakpoint_by_number(number);
                 }
                 pending_events.push(InternalEvent::Breakpoint {
                     reason: "removed",
@@ -379,6 +384,7 @@ impl DebugSession {
                     new_breakpoints.push(BreakpointRecord {
                         id,
                         addresses: Vec::new(),
+                        numbers: Vec::new(),
                         condition: options.condition,
                         hit_condition: options.hit_condition,
                         log_message: options.log_message,
@@ -402,6 +408,7 @@ impl DebugSession {
                         new_breakpoints.push(BreakpointRecord {
                             id,
                             addresses: views.iter().map(|view| view.addr).collect(),
+                            numbers: views.iter().map(|view| view.number).collect(),
                             condition: options.condition,
                             hit_condition: options.hit_condition,
                             log_message: options.log_message,
@@ -423,6 +430,7 @@ impl DebugSession {
                         new_breakpoints.push(BreakpointRecord {
                             id,
                             addresses: Vec::new(),
+                            numbers: Vec::new(),
                             condition: options.condition,
                             hit_condition: options.hit_condition,
                             log_message: options.log_message,
@@ -444,6 +452,7 @@ impl DebugSession {
                         new_breakpoints.push(BreakpointRecord {
                             id,
                             addresses: Vec::new(),
+                            numbers: Vec::new(),
                             condition: options.condition,
                             hit_condition: options.hit_condition,
                             log_message: options.log_message,
@@ -504,8 +513,8 @@ impl DebugSession {
                 .ok_or_else(|| anyhow!("setInstructionBreakpoints: debugger not initialized"))?;
 
             for record in prev {
-                for addr in record.addresses {
-                    let _ = dbg.remove_breakpoint(addr);
+                for number in record.numbers {
+                    let _ = dbg.remove_breakpoint_by_number(number);
                 }
                 pending_events.push(InternalEvent::Breakpoint {
                     reason: "removed",
@@ -532,6 +541,7 @@ impl DebugSession {
                     new_breakpoints.push(BreakpointRecord {
                         id,
                         addresses: Vec::new(),
+                        numbers: Vec::new(),
                         condition: options.condition,
                         hit_condition: options.hit_condition,
                         log_message: options.log_message,
@@ -558,6 +568,7 @@ impl DebugSession {
                         new_breakpoints.push(BreakpointRecord {
                             id,
                             addresses: Vec::new(),
+                            numbers: Vec::new(),
                             condition: options.condition,
                             hit_condition: options.hit_condition,
                             log_message: options.log_message,
@@ -583,6 +594,7 @@ impl DebugSession {
                         new_breakpoints.push(BreakpointRecord {
                             id,
                             addresses: vec![view.addr],
+                            numbers: vec![view.number],
                             condition: options.condition,
                             hit_condition: options.hit_condition,
                             log_message: options.log_message,
@@ -604,6 +616,7 @@ impl DebugSession {
                         new_breakpoints.push(BreakpointRecord {
                             id,
                             addresses: Vec::new(),
+                            numbers: Vec::new(),
                             condition: options.condition,
                             hit_condition: options.hit_condition,
                             log_message: options.log_message,
